@@ -10,18 +10,18 @@ import (
 )
 
 type Obligation struct {
-	Name   string // <func>#<kind>:<label>
-	Func   string
-	Kind   string
-	Label  string
-	Props  []string
-	PC     []Term
-	Goal   Term
-	Decls  *Decls
-	Where  string
-	Src    string
-	Trace  []string
-	Result *SolveResult
+	Name     string // <func>#<kind>:<label>
+	Func     string
+	Kind     string
+	Label    string
+	Props    []string
+	PC       []Term
+	Goal     Term
+	Decls    *Decls
+	Where    string
+	Src      string
+	Trace    []string
+	Result   *SolveResult
 	KnownBad bool
 }
 
@@ -37,6 +37,22 @@ func (ex *Exec) oblige(st *State, kind, label string, props []string, goal Term,
 	}
 	ex.obls = append(ex.obls, &Obligation{Name: funcKey(ex.fn) + "#" + kind + ":" + label, Func: funcKey(ex.fn), Kind: kind, Label: label, Props: props,
 		PC: append([]Term(nil), st.PC...), Goal: goal, Decls: ex.D, Where: ex.curPos, Src: src, Trace: append([]string(nil), st.Trace...)})
+}
+
+// canary: an "assert false" that must NOT be provable (vacuity guard, DESIGN.md 3.7).
+func (ex *Exec) canary(st *State, label string) {
+	if !ex.canaries || ex.disc != nil {
+		return
+	}
+	if ex.canaryN == nil {
+		ex.canaryN = map[string]int{}
+	}
+	if ex.canaryN[label] >= 2 {
+		return
+	}
+	ex.canaryN[label]++
+	ex.obls = append(ex.obls, &Obligation{Name: funcKey(ex.fn) + "#canary:" + label, Func: funcKey(ex.fn), Kind: "canary", Label: label,
+		PC: append([]Term(nil), st.PC...), Goal: False, Decls: ex.D, Where: ex.curPos, Src: "assert false must fail"})
 }
 
 func (ex *Exec) clauseProps(c *Clause) []string {
@@ -146,10 +162,10 @@ func (ex *Exec) bindLets(env *Env, fc *FuncContract, in *State) error {
 
 // modLoc is one entry of a modifies clause resolved to heap components.
 type modLoc struct {
-	heap  string
-	sort  string
-	kind  LocKind // LHeap1: (heap, ref); LHeap2: (heap, arr) whole array; LCell: scalar ghost value
-	ref   Term
+	heap string
+	sort string
+	kind LocKind // LHeap1: (heap, ref); LHeap2: (heap, arr) whole array; LCell: scalar ghost value
+	ref  Term
 }
 
 func (env *Env) modLocs(e Expr) ([]modLoc, error) {
@@ -185,8 +201,8 @@ func (env *Env) modLocs(e Expr) ([]modLoc, error) {
 		if err != nil {
 			return nil, err
 		}
-		for _, k := range ghostTypeKeys(v.T) {
-			if g, ok := ex.ctx.specs.Ghosts[k+"."+x.Name]; ok {
+		if g := env.findGhost(v.T, x.Name); g != nil {
+			{
 				var ref Term
 				switch r := v.V.(type) {
 				case IfaceV:
@@ -356,7 +372,7 @@ func (ex *Exec) applyContract(st *State, frID int, instr ssa.Instruction, fc *Fu
 		if ex.contract != nil && len(props) == 0 {
 			props = ex.contract.Props
 		}
-		ex.oblige(st, "precondition", fmt.Sprintf("%s:%s@%s", fc.Key, c.Label, ex.pos(instr)), props, g, c.Src)
+		ex.oblige(st, "precondition", fmt.Sprintf("%s:%s @ %s", fc.Key, c.Label, ex.srcLine(instr)), props, g, c.Src)
 		st.Assume(g)
 	}
 	pre := st.Clone()
@@ -535,6 +551,12 @@ func (ex *Exec) Verify() {
 			fr.Free = append(fr.Free, AddrV{Loc{Kind: LHeap1, Heap: "box." + typeKey(t), Ref: r, Typ: t}})
 		}
 	}
+	if fn.Name() == "init" && fn.Pkg != nil {
+		// a package initialiser runs once: its guard variable is false on entry
+		if g, ok := fn.Pkg.Members["init$guard"].(*ssa.Global); ok {
+			st.Globals[g] = False
+		}
+	}
 	var env *Env
 	if fc != nil {
 		var err error
@@ -561,6 +583,7 @@ func (ex *Exec) Verify() {
 			st.Assume(g)
 		}
 		ex.entry.PC = append([]Term(nil), st.PC...)
+		ex.canary(st, "entry")
 	}
 	entryPC := len(st.PC)
 	_ = entryPC
@@ -569,6 +592,7 @@ func (ex *Exec) Verify() {
 		if ex.disc != nil || fc == nil {
 			return
 		}
+		ex.canary(st, "return")
 		renv := *env
 		renv.vars = make(map[string]EV, len(env.vars)+4)
 		for k, v := range env.vars {
